@@ -660,6 +660,17 @@ func (w *blobWorld) drawPlan() {
 		w.plans[0] = append([]blobOp{a}, w.plans[0]...)
 		w.plans[1] = append([]blobOp{b}, w.plans[1]...)
 	}
+	if nw >= 2 && !w.isolated && D("link-duel", 4) == 0 {
+		// two writers link letter-case variants of one name (to a blob both have stored) at
+		// about the same time: the name must end up as one link, whichever spelling wins
+		nv := len(w.names[0].variants)
+		va := D("link-duel-a", nv)
+		vb := (va + 1 + D("link-duel-b", nv-1)) % nv
+		good := drawReaderPlan(0)
+		w.plans[0] = append([]blobOp{{kind: opPut, dig: 0, rf: good}, {kind: opLink, name: 0, variant: va, dig: 0}}, w.plans[0]...)
+		w.plans[1] = append([]blobOp{{kind: opPut, dig: 0, rf: good}, {kind: opLink, name: 0, variant: vb, dig: 0}}, w.plans[1]...)
+		verifsim.Probe("duel_link")
+	}
 	// operations of the restarted process (crash runs only; drawn always so that the tape layout is the same)
 	npost := D("npost", 4)
 	w.redoInterrupted = D("redo-interrupted", 2) == 0
